@@ -221,7 +221,7 @@ def machine_spec(
                 c["async"] = True
         for c in cbs:
             if c["async"]:
-                c["yields"] = draw(st.sampled_from([0, 0, 1, 2]))
+                c["yields"] = draw(st.sampled_from([0, 0, 1, 2, 4]))
         for g in gdefs:
             if g.get("async"):
                 g["yields"] = draw(st.sampled_from([0, 1, 2, 4]))
